@@ -211,15 +211,49 @@ def build_harness():
         raise Broken("harness-build", out)
 
 
+# modes that start a processor and a simulated cluster per case keep a little per case (the repository's global statistics
+# registry never forgets a processor's counters): a long run is split into several harness processes
+CHUNK = 500
+CHUNKED = {"c01", "c03", "c04", "c04strict", "c07", "c20", "c02", "c09", "c14e2e", "c14e2et", "c06tcp", "c05", "c01frame"}
+
+
 def run_harness(mode, outdir, seed, n, tier, extra=(), timeout=900):
     shutil.rmtree(outdir, ignore_errors=True)
     os.makedirs(outdir)
-    cmd = [os.path.join(BIN, "harness"), mode, "-seed", str(seed), "-n", str(n), "-out", outdir, "-tier", tier,
-           "-deadline", str(240 if tier == "quick" else max(600, timeout - 600))] + list(extra)
-    rc, out = sh(cmd, timeout=timeout)
-    if rc != 0:
-        raise Broken("harness-run:" + mode, out[-4000:])
-    return out
+    total_deadline = 240 if tier == "quick" else max(600, timeout - 600)
+    if mode not in CHUNKED or n <= CHUNK or "-in" in extra:
+        cmd = [os.path.join(BIN, "harness"), mode, "-seed", str(seed), "-n", str(n), "-out", outdir, "-tier", tier,
+               "-deadline", str(total_deadline)] + list(extra)
+        rc, out = sh(cmd, timeout=timeout)
+        if rc != 0:
+            raise Broken("harness-run:" + mode, out[-4000:])
+        return out
+    chunks = (n + CHUNK - 1) // CHUNK
+    started = time.time()
+    outs, hist = "", {}
+    with open(os.path.join(outdir, "cases.txt"), "w") as fc, open(os.path.join(outdir, "impl.txt"), "w") as fi:
+        for k in range(chunks):
+            left = total_deadline - (time.time() - started)
+            if left < 30:
+                hist["stopped at the deadline"] = 1
+                break
+            sub = os.path.join(outdir, "chunk%d" % k)
+            os.makedirs(sub)
+            cmd = [os.path.join(BIN, "harness"), mode, "-seed", str(seed * 1000003 + k), "-n", str(min(CHUNK, n - k * CHUNK)), "-out", sub, "-tier", tier,
+                   "-deadline", str(int(max(30, left / (chunks - k))))] + list(extra)
+            rc, out = sh(cmd, timeout=max(120, int(left) + 300))
+            if rc != 0:
+                raise Broken("harness-run:" + mode, out[-4000:])
+            outs += out
+            fc.write(open(os.path.join(sub, "cases.txt")).read())
+            fi.write(open(os.path.join(sub, "impl.txt")).read())
+            hp = os.path.join(sub, "hist.json")
+            if os.path.exists(hp):
+                for kk, vv in json.load(open(hp)).items():
+                    hist[kk] = hist.get(kk, 0) + vv
+            shutil.rmtree(sub, ignore_errors=True)
+    json.dump(hist, open(os.path.join(outdir, "hist.json"), "w"))
+    return outs
 
 
 def run_model(mode, cases, outfile, timeout=1800):
